@@ -25,6 +25,9 @@ func runScramSequence(c *Ctx, mech string, seq []string) {
 	var staleAuthMsg string // the auth message of an exchange the client has abandoned (restart)
 	curIter, staleIter := iter, iter
 	wrongProof := ""
+	badFirst := ""       // the last server-first carried a nonce that does not extend the client's (and which)
+	badFirstAuthMsg := "" // transcript of an exchange the client continued although it had to refuse
+	answeredBadFirst := false
 	firstValidFor := "" // the client-first-bare the last valid server-first answered
 	idx := 0
 	verified := false
@@ -50,6 +53,11 @@ func runScramSequence(c *Ctx, mech string, seq []string) {
 					}
 					firstValidFor, authMsg, verified = "", "", false
 				case strings.HasPrefix(s, "c="):
+					if k := strings.LastIndex(s, ",p="); k >= 0 && badFirst != "" {
+						// the client sent its proof in reply to a server-first it must refuse
+						answeredBadFirst = true
+						badFirstAuthMsg = clientFirstBare + "," + badFirst + "," + s[:k]
+					}
 					if k := strings.LastIndex(s, ",p="); k >= 0 && firstValidFor != "" {
 						authMsg = firstValidFor + "," + serverFirst + "," + s[:k]
 						// what an RFC 5802 verifier would check: the proof for THIS exchange's salt and iteration count
@@ -82,6 +90,7 @@ func runScramSequence(c *Ctx, mech string, seq []string) {
 		case "empty":
 			return ch("")
 		case "first", "first-iter2":
+			badFirst = ""
 			curIter = iter
 			if letter == "first-iter2" {
 				curIter = 2 * iter // same salt, the server raised its iteration count
@@ -94,14 +103,21 @@ func runScramSequence(c *Ctx, mech string, seq []string) {
 			return ch(serverFirst)
 		case "first-foreign":
 			firstValidFor = ""
-			return ch(fmt.Sprintf("r=FOREIGNNONCEabcdefghijklmnop,s=%s,i=%d", base64.StdEncoding.EncodeToString(salt), iter))
+			badFirst = fmt.Sprintf("r=FOREIGNNONCEabcdefghijklmnop,s=%s,i=%d", base64.StdEncoding.EncodeToString(salt), iter)
+			return ch(badFirst)
 		case "first-trunc":
 			firstValidFor = ""
 			half := cnonce
 			if len(half) > 4 {
 				half = half[:len(half)/2]
 			}
-			return ch(fmt.Sprintf("r=%s,s=%s,i=%d", half, base64.StdEncoding.EncodeToString(salt), iter))
+			badFirst = fmt.Sprintf("r=%s,s=%s,i=%d", half, base64.StdEncoding.EncodeToString(salt), iter)
+			return ch(badFirst)
+		case "final-bad":
+			// a peer that knows the password plays along with the exchange the client must have refused
+			sentFinal, lastFinalValid = true, false
+			_, sig := refScram(mech, normPass, salt, iter, []byte(badFirstAuthMsg))
+			return ch("v=" + sig)
 		case "first-malformed":
 			firstValidFor = ""
 			return ch("r=" + cnonce + "x,x=nosalt")
@@ -146,6 +162,9 @@ func runScramSequence(c *Ctx, mech string, seq []string) {
 			c.Violate("c14-nonce-reuse", "two client-first messages of one Auth object carry the same nonce", in)
 		}
 		seen[nn] = true
+	}
+	if answeredBadFirst {
+		c.Violate("c15-proof-to-foreign-nonce", fmt.Sprintf("%s: the client answered a server-first whose nonce does not extend its own nonce with a client-final message (sequence %v)", mech, seq), in)
 	}
 	if wrongProof != "" {
 		c.Violate("c14-wrong-client-proof", fmt.Sprintf("%s: %s (sequence %v)", mech, wrongProof, seq), in)
